@@ -25,7 +25,17 @@ MUTATORS = {"pop", "update", "setdefault", "clear", "popitem", "__setitem__", "_
 CONVERTERS = {"str", "int", "repr", "float"}
 
 
+def _pure_take(a: ast.AST) -> bool:
+    """`q.popleft()`, `q.get_nowait()`, `fut.result()` …: taking an object out of a container hands on the object itself."""
+    return isinstance(a, ast.Call) and isinstance(a.func, ast.Attribute) and a.func.attr in ("popleft", "pop", "get_nowait", "result") and not a.args and not a.keywords
+
+
 def check(P: Project, R: Report) -> None:
+    _check_main(P, R)
+    _r4_order(P, R)
+
+
+def _check_main(P: Project, R: Report) -> None:
     R.rule("R1", "nothing rewritten on the way in: in every carrier the value handed to the message constructor is the parsed JSON object itself (a bare name bound to json.loads / response.json() / a parameter), and no statement of the carrier assigns, deletes or mutates a member of an object that reaches the constructor")
     R.rule("R2", "id integrity: no envelope a carrier synthesises takes its id from a converted copy (str(), int(), …) of the request's id")
     R.rule("R3", "explicit codecs: wherever a carrier names a text codec itself, it is UTF-8")
@@ -94,7 +104,7 @@ def check(P: Project, R: Report) -> None:
             for c in walk_local(f.node):
                 if isinstance(c, ast.Call) and isinstance(c.func, ast.Attribute) and c.func.attr in ("_route_response", "_route_incoming_message", "_process_message_data", "_handle_message_event") and c.args:
                     a = c.args[0]
-                    R.ob("R1", f"{cname}:{f.qual}: hands `{c.func.attr}` a bare name", isinstance(a, ast.Name), f"{m.rel}:{c.lineno}", f"argument `{ast.unparse(a)[:60]}`")
+                    R.ob("R1", f"{cname}:{f.qual}: hands `{c.func.attr}` a bare name", isinstance(a, ast.Name) or _pure_take(a), f"{m.rel}:{c.lineno}", f"argument `{ast.unparse(a)[:60]}`")
     R.extra["constructor_per_carrier"] = {k: sorted(v) for k, v in table.items()}
 
     # ------------------------------------------------------------------ R2
@@ -156,3 +166,52 @@ def check(P: Project, R: Report) -> None:
                     n_codec += 1
                     R.ob("R3", f"{cname}:{f.qual}: codec named in `{ast.unparse(c)[:40]}` is UTF-8", str(codec).lower().replace("_", "-").startswith(("utf-8", "utf8")), f"{m.rel}:{c.lineno}", f"codec {codec!r}", sample=f"R3 {cname}:{f.qual}: {codec}")
     R.need(n_codec >= 2, f"only {n_codec} explicit codec sites found (stdio decoder and the two frame encoders confirmed by hand)")
+
+
+def _r4_order(P: Project, R: Report) -> None:
+    """Ordering on the legacy SSE carrier (stdio: C05-R4, Streamable HTTP: one task parses and routes a body)."""
+    from ..roles import incoming_send_calls, self_closure, sse_task_entries
+
+    R.rule("R4", "order is the carrier's arrival order: on the legacy SSE transport every message parsed off the event stream is put on the read stream by the event-stream task itself — it is never handed to another task (a future's result, a queue or deque, a spawned task) for delivery, because two delivering tasks are ordered by the scheduler, not by arrival")
+    ci = P.cls(A.MOD_SSE, "SSETransport")
+    meths = P.methods(ci)
+    conn, sender = sse_task_entries(P, ci)
+    R.need(conn is not None, "anchor vanished: the SSE connection task entry")
+    reader_side = self_closure(P, ci, conn)
+    sends = incoming_send_calls(P, ci)
+    routers = [f for f in meths.values() if any(isinstance(x, ast.Call) and call_name(x) in sends for x in walk_local(f.node))]
+    R.need(routers, "anchor: no SSE method puts messages on the incoming stream")
+    n = 0
+    for f in reader_side.values():
+        if f in routers:
+            continue
+        R.fn(f.fq)
+        # names holding wire data in this function: results of json.loads and parameters carrying event data/messages
+        wire = {p for p in f.positional_params() if p != "self"}
+        for s_ in walk_local(f.node):
+            if isinstance(s_, ast.Assign) and isinstance(s_.value, ast.Call) and call_name(s_.value) in ("json.loads", "fast_json.loads", "loads"):
+                wire |= {t.id for t in s_.targets if isinstance(t, ast.Name)}
+        for c in walk_local(f.node):
+            if not isinstance(c, ast.Call) or not isinstance(c.func, ast.Attribute):
+                continue
+            m_ = c.func.attr
+            args = [a for a in c.args] + [k.value for k in c.keywords]
+            carries = [a for a in args if any(isinstance(x, ast.Name) and x.id in wire for x in ast.walk(a))]
+            if not carries:
+                continue
+            handoff = None
+            if m_ in ("set_result", "put", "put_nowait", "append", "appendleft", "extend"):
+                handoff = m_
+            if m_ in ("create_task", "ensure_future", "start_soon", "call_soon"):
+                handoff = m_
+            if handoff is None:
+                continue
+            n += 1
+            R.call_sites += 1
+            recv = ast.unparse(c.func.value)
+            R.ob("R4", f"{f.qual}: `{recv}.{handoff}(<message>)` delivers from the event-stream task", False, f"{f.module.rel}:{c.lineno}",
+                 f"a message read off the event stream is handed to other code for delivery (`{ast.unparse(c)[:70]}`); whatever delivers it runs in another task, so a message that arrived later and is routed directly can reach the read stream first — the relative order of responses and notifications then depends on the carrier",
+                 sample=f"R4 {f.qual}: hand-off {recv}.{handoff}")
+    # direct routing by the reader side exists at all
+    direct = [f for f in reader_side.values() if any(isinstance(c, ast.Call) and call_name(c).startswith("self.") and meths.get(call_name(c)[5:]) in routers for c in walk_local(f.node))]
+    R.ob("R4", "the event-stream task routes messages itself", bool(direct), conn.where, f"{[f.qual for f in direct]}", sample=f"R4 reader side {sorted(reader_side)} routes directly in {[f.qual for f in direct]}")
